@@ -63,7 +63,7 @@ def main():
     pid, var = sys.argv[1], sys.argv[2]
     key = f"{pid}-{var}"
     demo_rel, demo_cmd, checks = T[key]
-    src = f"/tmp/seed/out-{pid}/{var}" if var in ("a", "b") else f"/tmp/seed/out2-{pid}/{var}"   # round 2 = variant c
+    src = {"a": f"/tmp/seed/out-{pid}/{var}", "b": f"/tmp/seed/out-{pid}/{var}", "c": f"/tmp/seed/out2-{pid}/{var}"}.get(var, f"/tmp/seed/out3-{pid}/{var}")   # round 2 = variant c, round 3 = d
     head = subprocess.run(["git", "-C", "/repo", "rev-parse", "--short", "HEAD"], capture_output=True, text=True).stdout.strip()
     sh("git checkout -q -- . && git clean -qfd -e target && git checkout -q --detach " + head)
     meta = {"id": key, "property": pid, "repo_head": head, "demo_path": demo_rel, "demo_cmd": demo_cmd, "steps": {}}
